@@ -465,7 +465,7 @@ func runC04(c *core.Ctx) {
 	n := c.Pick(500, 4000)
 	c.RunHistories(n, Registry["C04"].Mons, func(w *core.World) {
 		wts := map[string]int{
-			"edit-new": 14, "edit-copy": 2, "edit-copydir": 1, "edit-mod": 8, "edit-mod-samesize": 4, "edit-rm": 8, "edit-rmdir": 4, "edit-same": 2, "edit-touch": 1,
+			"edit-twin-file": 4, "edit-mod-old": 3, "edit-new": 14, "edit-copy": 2, "edit-copydir": 1, "edit-mod": 8, "edit-mod-samesize": 4, "edit-rm": 8, "edit-rmdir": 4, "edit-same": 2, "edit-touch": 1,
 			"add": 28, "add-all": 2, "rm": 16, "commit": 5, "commit-all": 1,
 			"restore-staged": 3, "reset": 2, "restore": 1,
 		}
